@@ -287,7 +287,7 @@ pub fn run(ctx: &Ctx) {
     ctx.subspace("base62 codec: random byte strings of length 1..=64", ncodec, false);
 
     // (a) seeds
-    let per_pattern: u64 = ctx.tier.pick(200, 4000);
+    let per_pattern: u64 = ctx.tier.pick(1_000, 8_000);
     ctx.par_range(5 * per_pattern, |_, i| {
         let lz = (i / per_pattern) as usize;
         let mut rng = ctx.rng("seed-lz", i as usize);
@@ -306,7 +306,7 @@ pub fn run(ctx: &Ctx) {
         ctx.report(v);
     });
     ctx.subspace("seeds with k leading zero bytes, k = 0..=4, random remainder", 5 * per_pattern, false);
-    let nrand: u64 = ctx.tier.pick(20_000, 100_000);
+    let nrand: u64 = ctx.tier.pick(60_000, 300_000);
     ctx.par_range_chunked(nrand, 500, |_, i| {
         let mut rng = ctx.rng("seed-rand", i as usize);
         let mut seed = [0u8; 32];
